@@ -14,8 +14,12 @@ trap 'git -C /repo worktree remove --force "$WT" >/dev/null 2>&1; rm -rf /tmp/de
 git -C "$WT" apply "$D/patch.diff" || { echo "SEED $ID: patch does not apply"; exit 2; }
 EIG="-I/usr/include/eigen3 -DBSPLINE_INTERPOLATION_USE_EIGEN"
 X=""; grep -q "pthread\|<thread>" "$D/demo.cpp" && X="-pthread"
-g++ -std=c++17 -O1 -w $EIG $X -I/repo/include -I/repo/examples "$D/demo.cpp" -o /tmp/demo_$ID.orig 2>/tmp/demo_$ID.err || { echo "SEED $ID: demo does not compile on HEAD"; head -5 /tmp/demo_$ID.err; exit 2; }
-g++ -std=c++17 -O1 -w $EIG $X -I"$WT/include" -I"$WT/examples" "$D/demo.cpp" -o /tmp/demo_$ID.mut 2>/tmp/demo_$ID.err || { echo "SEED $ID: demo does not compile with change"; head -5 /tmp/demo_$ID.err; exit 2; }
+EXO=""; EXM=""
+if grep -q '"diffusion.h"\|"spline-potential.h"\|<diffusion.h>\|<spline-potential.h>' "$D/demo.cpp"; then
+  EXO="/repo/examples/diffusion.cpp /repo/examples/spline-potential.cpp"; EXM="$WT/examples/diffusion.cpp $WT/examples/spline-potential.cpp"
+fi
+g++ -std=c++17 -O1 -w $EIG $X -I/repo/include -I/repo/examples "$D/demo.cpp" $EXO -o /tmp/demo_$ID.orig 2>/tmp/demo_$ID.err || { echo "SEED $ID: demo does not compile on HEAD"; head -5 /tmp/demo_$ID.err; exit 2; }
+g++ -std=c++17 -O1 -w $EIG $X -I"$WT/include" -I"$WT/examples" "$D/demo.cpp" $EXM -o /tmp/demo_$ID.mut 2>/tmp/demo_$ID.err || { echo "SEED $ID: demo does not compile with change"; head -5 /tmp/demo_$ID.err; exit 2; }
 timeout 300 /tmp/demo_$ID.orig >/dev/null 2>&1; o=$?
 timeout 300 /tmp/demo_$ID.mut >/dev/null 2>&1; m=$?
 T="skipped"
